@@ -63,7 +63,7 @@ func runC11(c *Ctx) {
 		// R11.3: lookup key and message
 		errParam := mkErr.Params[len(mkErr.Params)-1]
 		nlk := 0
-		allInstrs(mkErr, func(in ssa.Instruction) {
+		p.coneInstrs(mkErr, func(in ssa.Instruction) {
 			lk, ok := in.(*ssa.Lookup)
 			if !ok {
 				return
@@ -75,7 +75,7 @@ func runC11(c *Ctx) {
 			nlk++
 			cons := fmt.Sprintf("%s: code lookup by error type", fname(mkErr))
 			call, ok := lk.Index.(*ssa.Call)
-			good := ok && calleeName(call) == "reflect.TypeOf" && stripConv(call.Common().Args[0]) == ssa.Value(errParam)
+			good := ok && calleeName(call) == "reflect.TypeOf" && c.isParamOrForwarded(stripConv(call.Common().Args[0]), errParam)
 			c.check(good, "R11.3", cons, c.ipos(lk), "keyed by reflect.TypeOf(the handler's error)",
 				"the code is looked up under the type of something other than the error the handler returned (e.g. an unwrapped cause): an unregistered wrapper is sent with a registered code and loses its message")
 		})
@@ -97,7 +97,7 @@ func runC11(c *Ctx) {
 		d := r.FnDisp
 		errF, resF := respFieldByTag(r.TResp, "error"), respFieldByTag(r.TResp, "result")
 		var errStores, resStores []*ssa.Store
-		allInstrs(d, func(in ssa.Instruction) {
+		p.coneInstrs(d, func(in ssa.Instruction) {
 			st, ok := in.(*ssa.Store)
 			if !ok {
 				return
